@@ -39,6 +39,14 @@ SCHEMA = {
     'SegmentChainer': {'sequentialityScorer': OBJ('SequentialityScorer')},
     '_ConflictingSegmentCharacteristics': {'positions': LIST(PWS), 'scores': LIST(REAL), 'indexes': LIST(INT)},
     'PeaksSelector': {'count': INT},
+    'BionanoAlignment': {'alignmentId': INT, 'queryId': INT, 'referenceId': INT, 'queryStartPosition': INT, 'queryEndPosition': INT,
+                         'referenceStartPosition': INT, 'referenceEndPosition': INT, 'reverseStrand': BOOL, 'confidence': REAL,
+                         'cigarString': STR, 'queryLength': INT, 'referenceLength': INT, 'alignedPairs': LIST(OBJ('BenchmarkAlignedPair'))},
+    'AlignmentRowComparison': {'type': ENUM('AlignmentRowComparisonResultType'), 'identity': REAL, 'alignment1Coverage': REAL,
+                               'alignment2Coverage': REAL},
+    'AlignmentComparison': {'avgOverlappingAlignment1Coverage': REAL, 'avgOverlappingAlignment2Coverage': REAL, 'avgOverlappingIdentity': REAL,
+                            'overlapping': INT, 'nonOverlapping': INT, 'firstOnly': INT, 'secondOnly': INT,
+                            'rows': LIST(OBJ('AlignmentRowComparison'))},
     'SelectedPeak': {'primaryCorrelation': OBJ('InitialAlignment', 'EmptyInitialAlignment'), 'peak': PEAK},
     'CorrelationResult': {'peaks': LIST(PEAK), 'query': OMAP, 'reference': OMAP, 'reverseStrand': BOOL,
                           'resolution': INT, 'blur': INT},
